@@ -1,7 +1,8 @@
 (** Model of internal/server/response/envelope.go: extractHeader, QuoteOrNIL,
     parseAddressList, BuildEnvelope (statement by statement; ASCII domain for
-    ToUpper / TrimSpace).  [parse_address_list] returns [None] exactly where
-    the Go code panics (addr[start+1:end] with '>' before '<').
+    ToUpper / TrimSpace).  [parse_address_list] returns [None] where the Go
+    code would panic on addr[start+1:end]; since e2cd37d (the closing '>' is
+    searched after the '<') that cannot happen any more.
     No proofs in this file. *)
 From Coq Require Import String Ascii List Bool Arith ZArith.
 From Raven Require Import Base.GoStr.
@@ -63,16 +64,20 @@ Definition parse_one (addr0 : str) : option (option str) :=
   | [] => Some None
   | _ =>
       let ne :=
-        if contains_byte addr LT_ && contains_byte addr GT_ then
-          match index_byte addr LT_, index_byte addr GT_ with
-          | Some st, Some en =>
-              match slice addr (Z.of_nat st + 1) (Z.of_nat en) with
-              | Some email => Some (trim (trim_space (firstn st addr)) [DQ], email)
-              | None => None
-              end
-          | _, _ => None
-          end
-        else Some ([], addr) in
+        (* if start := strings.Index(addr, "<"); start != -1 {
+             if end := strings.Index(addr[start:], ">"); end != -1 { end += start; ... *)
+        match index_byte addr LT_ with
+        | Some st =>
+            match index_byte (skipn st addr) GT_ with
+            | Some en =>
+                match slice addr (Z.of_nat st + 1) (Z.of_nat (st + en)) with
+                | Some email => Some (trim (trim_space (firstn st addr)) [DQ], email)
+                | None => None
+                end
+            | None => Some ([], addr)
+            end
+        | None => Some ([], addr)
+        end in
       match ne with
       | None => None
       | Some (name, email) =>
